@@ -60,7 +60,7 @@ class MonkeysAudioInfo(StreamInfo):
             if self.version >= 3950:
                 blocks_per_frame = 73728 * 4
             elif self.version >= 3900 or (self.version >= 3800 and
-                                          compression_level == 4):
+                                          compression_level == 4000):
                 blocks_per_frame = 73728
             else:
                 blocks_per_frame = 9216
